@@ -1,5 +1,5 @@
 //! Registry: which families of cases make up each check at each tier, and replay dispatch.
-use crate::alphabet::{Chars, LongTokens, Skeletons, Soup, TokenTails, Words, CONTEXTS, GAPS3, GAPS5, GAPS8, SIGMA, SIGMA_SMALL};
+use crate::alphabet::{Chars, LongTokens, Separators, Skeletons, Soup, TokenTails, Words, CONTEXTS, GAPS3, GAPS5, GAPS8, SIGMA, SIGMA_SMALL};
 use crate::cfg::{self, Cfg, C_QUICK};
 use crate::grammar::Grammar;
 use crate::oracles as o;
@@ -216,6 +216,17 @@ impl NearMisses {
     }
 }
 
+impl TextSource for Separators {
+    fn name(&self) -> String {
+        "separator-comments(2 x 8 chars x 1..12 x 5 trailing blanks x 3 places)".into()
+    }
+    fn len(&self) -> u64 {
+        Separators::len(self)
+    }
+    fn get(&self, idx: u64, buf: &mut String) {
+        Separators::get(self, idx, buf)
+    }
+}
 impl TextSource for TokenTails {
     fn name(&self) -> String {
         "token-tails(9 forms x every pair of Gamma chars at the end of the body)".into()
@@ -776,6 +787,9 @@ fn vo_flips() -> VariantOpts {
 fn vo_all() -> VariantOpts {
     vopts(true, true, true)
 }
+fn vo_dirs() -> VariantOpts {
+    vopts(false, true, false)
+}
 fn vo_cd() -> VariantOpts {
     vopts(true, true, false)
 }
@@ -890,6 +904,10 @@ fn c02_ident_family(g: &Arc<Grammar>, d: usize, cfgs: &[Cfg]) -> Box<dyn Family>
 }
 
 fn c05_family(g: &Arc<Grammar>, d: usize, cfgs: &[Cfg], flips: bool, comments: bool) -> Box<dyn Family> {
+    c05_family_mode(g, d, cfgs, flips, if comments { 1 } else { 0 })
+}
+fn c05_family_mode(g: &Arc<Grammar>, d: usize, cfgs: &[Cfg], flips: bool, comment_mode: u8) -> Box<dyn Family> {
+    let comments = comment_mode > 0;
     pf(
         "c05",
         g,
@@ -940,6 +958,11 @@ fn c05_family(g: &Arc<Grammar>, d: usize, cfgs: &[Cfg], flips: bool, comments: b
                     if frozen[i] {
                         continue;
                     }
+                    if comment_mode == 2 {
+                        // an inline block comment only
+                        run_text(layout::with_comment(toks, &l0, i, 0, 0), ctx);
+                        continue;
+                    }
                     for k in [0usize, 2, 4] {
                         for p in 0..3 {
                             run_text(layout::with_comment(toks, &l0, i, k, p), ctx);
@@ -948,6 +971,9 @@ fn c05_family(g: &Arc<Grammar>, d: usize, cfgs: &[Cfg], flips: bool, comments: b
                 }
                 let nts: Vec<usize> = ["Stmt"].iter().map(|n| _g.nt(n)).collect();
                 for (a, b) in layout::spans(toks, &nts) {
+                    if comment_mode == 2 {
+                        break;
+                    }
                     if (a..b).any(|j| frozen[j]) {
                         continue;
                     }
@@ -1110,6 +1136,7 @@ pub fn families(check: &str, tier: &str) -> Vec<Box<dyn Family>> {
                     tf("c02", lit_texts(2), &C_QUICK[..2], wf_lits(f_c02)),
                     deep_variants("c02", &g(1), 1, 12, &C_QUICK[..3], f_c02),
                     c02_ident_family(&g(2), 2, &C_QUICK[..2]),
+                    tf("c02", Separators, &C_QUICK[..2], Box::new(|x, c, ctx| f_c02(x, c, ctx))),
                     tf("c02", two_lits(), &lit_wraps(), wf_lits(f_c02)),
                 ]
             } else {
@@ -1134,6 +1161,7 @@ pub fn families(check: &str, tier: &str) -> Vec<Box<dyn Family>> {
                     tf("c03", lit_texts(2), &C_QUICK[..2], wf_lits(f_c03)),
                     deep_variants("c03", &g(1), 1, 12, &C_QUICK[..3], f_c03),
                     tf("c03", two_lits(), &lit_wraps(), wf_lits(f_c03)),
+                    tf("c03", Separators, &C_QUICK[..2], Box::new(|x, c, ctx| f_c03(x, c, ctx))),
                 ]
             } else {
                 vec![
@@ -1192,7 +1220,7 @@ pub fn families(check: &str, tier: &str) -> Vec<Box<dyn Family>> {
             let c05q: Vec<Cfg> = C_QUICK.iter().copied().filter(|c| c.wrap >= 30).collect();
             let c05f: Vec<Cfg> = full.iter().copied().filter(|c| c.wrap >= 30).collect();
             if quick {
-                vec![c05_family(&g(2), 2, &c05q, false, false), c05_family(&g(1), 1, &c05q[..3], true, true), deep_c05(&g(1), 1, 16, &c05q[..3])]
+                vec![c05_family(&g(2), 2, &c05q, false, false), c05_family(&g(1), 1, &c05q[..3], true, true), c05_family_mode(&g(2), 2, &c05q[..2], false, 2), deep_c05(&g(1), 1, 16, &c05q[..3])]
             } else {
                 vec![
                     c05_family(&g(3), 3, &c05q[..3], false, false),
@@ -1323,6 +1351,7 @@ pub fn families(check: &str, tier: &str) -> Vec<Box<dyn Family>> {
                     deep_variants("c08eof", &g(1), 1, 12, &C_QUICK[..3], f_c08_eof),
                     tf("c08", large_texts(), &C_QUICK[..2], or_c08(false)),
                     tf("c08", TokenTails, &C_QUICK[..2], or_c08(false)),
+                    tf("c08", Separators, &C_QUICK[..2], or_c08(true)),
                 ]
             } else {
                 vec![
@@ -1479,6 +1508,7 @@ pub fn families(check: &str, tier: &str) -> Vec<Box<dyn Family>> {
                     tf("c14", Skeletons { n: 6 }, &one, or_c14(false)),
                     prog_variants("c14wf", &g(2), 2, &one, vo_base, f_c14_wf),
                     prog_variants("c14wf", &g(1), 1, &one, vo_all, f_c14_wf),
+                    prog_variants("c14wf", &g(2), 2, &one, vo_dirs, f_c14_wf),
                     seed_texts("c14wf", &wf_seeds(), &one, f_c14_wf),
                 ]
             } else {
@@ -1582,7 +1612,19 @@ pub fn replay(case: &Value, ctx: &mut Ctx) -> bool {
         }
         "c02" => {
             let out = ctx.fmt(&c, &input);
-            o2::c02(&input, &out, &c, ctx);
+            if o2::c02(&input, &out, &c, ctx) {
+                if let Some(ids) = case["identifiers"].as_array() {
+                    // identifiers (by ordinal among the non-comment tokens) whose text must survive exactly
+                    let keep = |t: &&crate::refscan::Tok| !matches!(t.kind, crate::refscan::Kind::Comment(_) | crate::refscan::Kind::CompilerDirective | crate::refscan::Kind::Conditional(_));
+                    let (tx, to) = (crate::refscan::scan(&input), crate::refscan::scan(&out));
+                    let (kx, ko): (Vec<_>, Vec<_>) = (tx.iter().filter(keep).collect(), to.iter().filter(keep).collect());
+                    for i in ids.iter().filter_map(|v| v.as_u64()).map(|v| v as usize) {
+                        if i < kx.len() && i < ko.len() && kx[i].text(&input) != ko[i].text(&out) {
+                            ctx.fail("C02", "identifier-text-changed", format!("{:?} became {:?}", kx[i].text(&input), ko[i].text(&out)), case.clone());
+                        }
+                    }
+                }
+            }
         }
         "c03" => o2::c03(&input, &c, ctx),
         "c05" => {
